@@ -36,6 +36,27 @@ def gen_script(rng, fens, games):
             sc.append(rng.choice([("uci", ">uci", "none"), ("isready", ">isready", "none")]))
         sc.append(("stop", ">stop", "none")); sc.append(("quit", ">quit", "none"))
         return sc
+    if rng.random() < 0.1:
+        # go-shape family: every limited `go` must answer by itself, whatever the order of its sub-commands (UCI allows any order);
+        # ponder searches with the sub-commands shuffled must wait for `ponderhit`
+        sc = [("uci", ">uci", "sync"), ("isready", ">isready", "sync")]
+        for _ in range(rng.randrange(2, 6)):
+            g = rng.choice(games)
+            sc.append(("position startpos moves " + " ".join(g) if g else "position startpos", ">other", "none"))
+            groups = [rng.choice([["depth", str(rng.randrange(1, 5))], ["nodes", str(rng.choice([1, 500, 3000]))], ["movetime", str(rng.choice([1, 30]))], ["mate", "1", "depth", "3"]])]
+            if rng.random() < 0.5: groups = [["wtime", "300"], ["btime", "300"], ["winc", "10"], ["binc", "10"]] + ([["movestogo", "2"]] if rng.random() < 0.5 else [])
+            if rng.random() < 0.7: groups.append(["searchmoves"] + rng.sample(["e2e4", "d2d4", "g1f3", "e7e5", "g8f6", "b8c6", "a7a6", "f1b5", "c2c4"], 3))
+            pond = rng.random() < 0.25
+            if pond: groups.append(["ponder"])
+            rng.shuffle(groups)
+            line = "go " + " ".join(" ".join(x) for x in groups)
+            if pond:
+                sc.append((line, ">goP", "short")); sc.append(("ponderhit", ">ponderhit", "none")); sc.append(("isready", ">isready", "sync"))
+                sc.append(("stop", ">stop", "none"))
+            else:
+                sc.append((line, ">go", "best"))
+        sc.append(("quit", ">quit", "none"))
+        return sc
     if rng.random() < 0.15:
         # option-combination family: several options at boundary values, then a short search that must still answer
         sc = [("uci", ">uci", "sync")]
